@@ -35,35 +35,53 @@ def run(R):
     F = R.F
     # ---- callable destroyed exactly once -------------------------------------------------------------
     n = 0
+    from lib import dataflow
     for q in ("dispenso::detail::invokeInline", "dispenso::detail::invokeSpill"):
         for fn in F.functions(qname=q):
-            runs = [(p, e) for p, e in fn.events() if e.get("k") == "call" and e.get("opcall") == "()"]
-            dts = [(p, e) for p, e in fn.events() if (e.get("k") == "call" and e.get("dtorcall")) or e.get("k") == "pseudodtor"]
+            spill = q.endswith("Spill")
+            is_run = lambda e: e.get("k") == "call" and e.get("opcall") == "()"
+            is_dt = lambda e: (e.get("k") == "call" and e.get("dtorcall")) or e.get("k") == "pseudodtor"
+            is_fr = lambda e: is_call(e, "dispenso::deallocSmallBuffer")
+            runs = [(p, e) for p, e in fn.events() if is_run(e)]
             n += 1
-            ok = len(runs) == 1 and len(dts) == 1
             det = []
-            if ok:
-                g = any(pol and isinstance(strip_casts(at), dict) and strip_casts(at).get("name") == "run" for at, pol, b in fn.guard_atoms(runs[0][0]))
-                if not g:
-                    ok = False
+            # counted on every path (a rewrite may duplicate the tail into both branches):
+            # (invocations, destructor calls, frees), each saturating at 2
+            def transfer(pos, ev, st):
+                r, d, f = st
+                if is_run(ev):
+                    if d or f:
+                        raise dataflow.Violation("functor invoked after it was destroyed / its storage freed")
+                    r = min(r + 1, 2)
+                elif is_dt(ev):
+                    if f:
+                        raise dataflow.Violation("functor destroyed after its storage was freed")
+                    d = min(d + 1, 2)
+                elif is_fr(ev):
+                    if not d:
+                        raise dataflow.Violation("spilled storage freed before the functor's destructor ran")
+                    f = min(f + 1, 2)
+                    if targ0(ev) != (fn.targv[0] if fn.targv else None):
+                        raise dataflow.Violation("spill freed with size class %s, allocated with %s" % (targ0(ev), fn.targv[0] if fn.targv else "?"))
+                return (r, d, f)
+            def at_exit(st):
+                r, d, f = st
+                if r > 1:
+                    return "functor can be invoked twice"
+                if d != 1:
+                    return "a path (e.g. run == false) destroys the functor %d times" % d
+                if spill and f != 1:
+                    return "spilled storage freed %d times on a path" % f
+                return None
+            vios, stats = dataflow.run(fn, (0, 0, 0), transfer, None, at_exit)
+            det += [v["msg"] for v in vios]
+            if not runs:
+                det.append("the functor is never invoked")
+            for rp, _ in runs:
+                if not any(pol and isinstance(strip_casts(at), dict) and strip_casts(at).get("name") == "run" for at, pol, b in fn.guard_atoms(rp)):
                     det.append("functor invoked without testing 'run'")
-                if fn.path_to_exit_avoiding(Pos(fn.entry, -1), lambda p, e: p == dts[0][0]) is not None:
-                    ok = False
-                    det.append("a path (e.g. run == false) skips the functor's destructor")
-                if fn.can_reach(dts[0][0], runs[0][0]):
-                    ok = False
-                    det.append("functor destroyed before it is invoked")
-                if q.endswith("Spill"):
-                    fr = [(p, e) for p, e in fn.events() if is_call(e, "dispenso::deallocSmallBuffer")]
-                    if not (len(fr) == 1 and fn.dominates(dts[0][0], fr[0][0]) and fn.path_to_exit_avoiding(Pos(fn.entry, -1), lambda p, e: p == fr[0][0]) is None):
-                        ok = False
-                        det.append("spilled storage not freed exactly once after the destructor")
-                    elif targ0(fr[0][1]) != (fn.targv[0] if fn.targv else None):
-                        ok = False
-                        det.append("spill freed with size class %s, allocated with %s" % (targ0(fr[0][1]), fn.targv[0] if fn.targv else "?"))
-            else:
-                det.append("%d invocations, %d destructor calls" % (len(runs), len(dts)))
-            R.ob("C11.callable-once", fn, fn.loc, ok, "; ".join(det) or "run (if requested) then destroy on every path", sitekey=q.split("::")[-1], why=WHY)
+            ok = not det
+            R.ob("C11.callable-once", fn, fn.loc, ok, "; ".join(sorted(set(det))) or "run (if requested) then destroy%s, exactly once on every path" % (" then free" if spill else ""), sitekey=q.split("::")[-1], why=WHY)
     for fn in F.fns:
         if re.search(r"FutureImpl(Small|Alloc)::runFunc$", fn.qname):
             rr = [(p, e) for p, e in fn.events() if e.get("k") == "call" and e.get("name") == "runToResult"]
